@@ -10,7 +10,7 @@ from pyvc.state import RaiseSig, Unsupported
 from pyvc.interp import is_callable
 from specs.sig import *   # noqa
 
-DEPENDS = ('std', 'application')
+DEPENDS = ('std', 'application', 'static')
 
 BR_CLS = 'werkzeug.wrappers.base_response.BaseResponse'
 RR_CLS = 'clastic.application.RerouteWSGI'
@@ -150,7 +150,8 @@ def register(E):
         return _dm(I, ctx, app, request)
     E.contracts['clastic.application.Application.dispatch'].model = dispatch_model_rec
 
-    E.add_opaque(OpaqueClass('Environ', truthy=None))
+    if 'Environ' not in E.opaque:       # contracts/static.py models environ.get()
+        E.add_opaque(OpaqueClass('Environ', truthy=None))
     register_wrappers(E)
     register_allmw(E)
     E.add_opaque(OpaqueClass('StartResponse', truthy=True, callable_=True))
@@ -216,19 +217,21 @@ def register_wrappers(E):
                            I.identical(ctx, ev[5][1], result)))
 
 
+import contracts.core as _core
 SeqO = Z.SeqSort(Z.Obj)
 _s = z3.Const('nd!s', SeqO)
 NODUPTY = z3.RecFunction('NODUPTY', SeqO, Z.Bool)
+_n = z3.Length(_s)
+# module level: a RecFunction must be defined once per process, not once per engine
+z3.RecAddDefinition(NODUPTY, [_s], z3.If(_n <= 1, z3.BoolVal(True),
+                                        z3.And(NODUPTY(z3.Extract(_s, 0, _n - 1)),
+                                               z3.Not(_core.HASTY(z3.Extract(_s, 0, _n - 1), _core.MW_TY(_s[_n - 1]))))))
 
 
 def register_allmw(E):
     """_get_all_middlewares: type-duplicate-free; the outermost entry is the first middleware of
     the LAST bound route (routes are scanned in reverse)."""
     import contracts.core as core
-    n = z3.Length(_s)
-    z3.RecAddDefinition(NODUPTY, [_s], z3.If(n <= 1, z3.BoolVal(True),
-                                            z3.And(NODUPTY(z3.Extract(_s, 0, n - 1)),
-                                                   z3.Not(core.HASTY(z3.Extract(_s, 0, n - 1), core.MW_TY(_s[n - 1]))))))
 
     @E.spec('NODUPTY')
     def NODUPTY_(I, ctx, seq):
